@@ -569,26 +569,22 @@ int32_t __wrap_psSign(void *pool, void *privKey, int32_t sigAlg, const unsigned 
     return rc;
 }
 
-/* default: no thread engine linked in */
-__attribute__((weak)) void vsim_sched_point(int kind) { (void) kind; }
-
-/* mutex seam: pass-through unless the thread engine (nosan_threads.c) takes over */
+/* thread engine (nosan_sched.c): every seam call is a scheduling point; mutexes are modelled so that a thread never really blocks */
 #include <pthread.h>
-extern int vsim_mutex_lock_hook(pthread_mutex_t *m);     /* returns 0 when it handled the call */
-extern int vsim_mutex_unlock_hook(pthread_mutex_t *m);
-__attribute__((weak)) int vsim_mutex_lock_hook(pthread_mutex_t *m) { (void) m; return 1; }
-__attribute__((weak)) int vsim_mutex_unlock_hook(pthread_mutex_t *m) { (void) m; return 1; }
+#include "vsched.h"
+void vsim_sched_point(int kind) { vs_point(kind); }
 int __real_pthread_mutex_lock(pthread_mutex_t *m);
 int __real_pthread_mutex_unlock(pthread_mutex_t *m);
 int __wrap_pthread_mutex_lock(pthread_mutex_t *m)
 {
-    if (g_enabled && vsim_mutex_lock_hook(m) == 0) { return 0; }
+    if (g_enabled) { vs_mutex_before_lock(m); }
     return __real_pthread_mutex_lock(m);
 }
 int __wrap_pthread_mutex_unlock(pthread_mutex_t *m)
 {
-    if (g_enabled && vsim_mutex_unlock_hook(m) == 0) { return 0; }
-    return __real_pthread_mutex_unlock(m);
+    int rc = __real_pthread_mutex_unlock(m);
+    if (g_enabled) { vs_mutex_after_unlock(m); }
+    return rc;
 }
 
 extern void __sanitizer_symbolize_pc(void *pc, const char *fmt, char *out_buf, size_t out_buf_size) __attribute__((weak));
